@@ -49,6 +49,19 @@ Theorem C07_range_pos : forall c e s, wf_rcfg c -> Renc c e s ->
   renc_pos e = (N.of_nat (sk s), (sL s mod Mw c, sR s)).
 Proof. intros c e s _. exact (renc_pos_spec c e s). Qed.
 
+(* A snapshot stored as plain numbers can be rebuilt: RangeCoderState::new(lower, range) accepts
+   the (lower, range) of EVERY reachable encoder state, in particular while words are held back
+   for a carry (Inverted, where lower + range exceeds the state type) *)
+Theorem C07_range_snapshot_rebuildable : forall c e s, wf_rcfg c -> Renc c e s -> SInv c s ->
+  rstate_ok c (snd (snd (renc_pos e))) = true.
+Proof.
+  intros c e s Hc He Hs. rewrite (renc_pos_spec c e s He). cbn [snd].
+  destruct Hs as (HT & _). unfold rstate_ok, Tw in *. rewrite shr_div.
+  assert (H0 : 2 ^ (rSB c - rWB c) <> 0) by (apply N.pow_nonzero; discriminate).
+  pose proof (N.div_le_mono _ _ _ H0 HT) as Hd. rewrite N.div_same in Hd by exact H0.
+  destruct (N.eqb_spec (sR s / 2 ^ (rSB c - rWB c)) 0) as [E|_]; [rewrite E in Hd; exfalso; apply (N.nle_succ_0 0); exact Hd|reflexivity].
+Qed.
+
 (* ------------------------------------------------------------------ C08 *)
 Theorem C08_range_guard_pure : forall c e view e', sit_wf (e_sit e) ->
   renc_get_compressed c e = ROk (view, e') -> e' = e /\ renc_into_compressed c e = ROk view.
@@ -150,6 +163,7 @@ Print Assumptions C07_range_seek.
 Print Assumptions C07_range_seek_end.
 Print Assumptions C07_range_seek_refused.
 Print Assumptions C07_range_pos.
+Print Assumptions C07_range_snapshot_rebuildable.
 Print Assumptions C08_range_guard_pure.
 Print Assumptions C08_range_guard_total.
 Print Assumptions C09_range_impossible_rejected.
